@@ -109,6 +109,9 @@ def check_cfg(ctx, fx, cfg):
                 for o in rs:
                     if o.kind == "await" and any(nfa.trait_method(loops.T_RS, "refresh")(ct) for _x, ct in b.awaited_calls(o.site[0])):
                         assigned = True
+        if (t.get("argtys") or [""])[0].startswith("&mut "):
+            # a strategy that refreshes the actor in place: the loop's actor place itself is handed over (refresh-operands)
+            assigned = True
         ctx.require(assigned, "R07.2", "refresh-result-assigned@" + cfg, "the value returned by refresh must become the loop's actor (otherwise the new incarnation is lost)", fn=f["def"], site=t["l"])
     # R07.3
     ab = timers.aborters(ctx, fx)
@@ -135,6 +138,9 @@ def check_cfg(ctx, fx, cfg):
                 ctx.viol("R07.3", inst + ":timers", v["msg"], fn=co["def"], site=co["loc"], trace=v["trace"])
             if not v1 and not v2:
                 ctx.ok("R07.3", inst, co["loc"], {"words": [" ".join(w) for w in nfa.words(n, limit=2)]})
+            # the incarnation that is started and handed back is the given value (restart) / the fresh default (recreate)
+            from props.c03 import check_receivers
+            check_receivers(ctx, fx, co, b, inst, kind, "R07.3")
             # the abort acts on the context handed in
             for bi, t in b.normal_calls():
                 if t.get("callee") in ab:
@@ -148,6 +154,12 @@ def check_cfg(ctx, fx, cfg):
                     if st["k"] == "assign" and st["p"] == [0] and st["r"]["k"] == "agg" and st["r"].get("variant") == "Ok":
                         rs = roots(b, st["r"]["ops"][0])
                         good = all(r.kind in ("upvar", "arg") for r in rs) and bool(rs)
+            ups = co.get("upvars", [])
+            if ups and ups[0].startswith("&mut "):
+                # in-place protocol: the borrowed actor is neither written nor passed on
+                from mir import upvar_sinks
+                sk = upvar_sinks(b, 0)
+                good = not [s for s in sk if s["k"] in ("call", "store", "agg", "ret", "yield")]
             ctx.require(good and not v1, "R07.3", inst, "a non-restartable strategy must hand back the same actor value untouched", fn=co["def"], site=co["loc"])
     for name, a in ab.items():
         ctx.require(a["removes"] and not a["viols"], "R07.3", "abort-all-empties-list:%s@%s" % (name, cfg), "aborting on restart must also empty the list (drain), otherwise handles accumulate", fn=name, site=a["fn"]["loc"])
